@@ -22,11 +22,24 @@ def parseRat (s : String) : Option Rat :=
     | _, _ => none
   | _ => none
 
+/-- a double: `"num/den"`, `"nan"`, `"inf"`, `"-inf"` -/
+def parseFlt (s : String) : Option Flt :=
+  if s == "nan" then some .nan
+  else if s == "inf" then some (.inf false)
+  else if s == "-inf" then some (.inf true)
+  else (parseRat s).map .fin
+
+def fltStr : Flt → String
+  | .fin r => ratStr r
+  | .nan => "nan"
+  | .inf false => "inf"
+  | .inf true => "-inf"
+
 def parseVal (j : Json) : Option Val :=
   match jArr j |>.toList with
   | [Json.str "s", Json.str s] => some (.str s)
   | [Json.str "i", v] => (jInt? v).map .int
-  | [Json.str "f", Json.str s] => (parseRat s).map .flt
+  | [Json.str "f", Json.str s] => (parseFlt s).map .flt
   | [Json.str "b", Json.bool b] => some (.bool b)
   | _ => none
 
@@ -36,7 +49,7 @@ def parseRow (j : Json) : Option OldRow :=
   match jArr j |>.toList with
   | [v, Json.str u, Json.str r, Json.str f, Json.str e, Json.str c] => do
     let v ← parseVal v
-    let u ← parseRat u
+    let u ← parseFlt u
     pure ⟨v, u, r, f, e, c⟩
   | _ => none
 
@@ -62,7 +75,7 @@ def parsePObj (j : Json) : Option PObj :=
     let c ← parseStamp (field n "created")
     let u ← parseStamp (field n "updated")
     let unc ← match field n "uncertainty" with
-      | .str s => (parseRat s).map some
+      | .str s => (parseFlt s).map some
       | _ => some none
     pure (.new ⟨id, c, u, jStr (field n "dtype"), vals, optStr (field n "definition"),
                 optStr (field n "unit"), unc⟩)
@@ -111,7 +124,7 @@ def jI (i : Int) : Json := Json.num (JsonNumber.fromInt i)
 def valJ : Val → Json
   | .str s => .arr #[.str "s", .str s]
   | .int i => .arr #[.str "i", jI i]
-  | .flt r => .arr #[.str "f", .str (ratStr r)]
+  | .flt x => .arr #[.str "f", .str (fltStr x)]
   | .bool b => .arr #[.str "b", .bool b]
 
 def idJ : Id → Json | .orig s => .str s | .fresh n => Json.mkObj [("fresh", jNat n)]
@@ -120,14 +133,14 @@ def stampJ : Stamp → Json | .orig s => .str s | .now n => Json.mkObj [("now", 
 def pobjJ (p : Path) : PObj → Json
   | .old o => Json.mkObj [("path", .arr (p.map Json.str).toArray), ("old", Json.mkObj [
       ("dtype", .str o.dtype),
-      ("rows", .arr (o.rows.map fun r => Json.arr #[valJ r.value, .str (ratStr r.uncertainty),
+      ("rows", .arr (o.rows.map fun r => Json.arr #[valJ r.value, .str (fltStr r.uncertainty),
           .str r.reference, .str r.filename, .str r.encoder, .str r.checksum]).toArray),
       ("definition", oStr o.definition), ("unit", oStr o.unit)])]
   | .new n => Json.mkObj [("path", .arr (p.map Json.str).toArray), ("new", Json.mkObj [
       ("id", idJ n.id), ("created", stampJ n.created), ("updated", stampJ n.updated),
       ("dtype", .str n.dtype), ("values", .arr (n.values.map valJ).toArray),
       ("definition", oStr n.definition), ("unit", oStr n.unit),
-      ("uncertainty", match n.uncertainty with | some r => .str (ratStr r) | none => .null)])]
+      ("uncertainty", match n.uncertainty with | some r => .str (fltStr r) | none => .null)])]
 
 def linkJ : Option Link → Json
   | none => .null
@@ -181,8 +194,8 @@ def stale (lib : List Nat) (f : File) (k : Json) : Json :=
          Json.mkObj [("file", fileJ r2.1), ("err", errJ r2.2)]]
 
 def viewJ (f : File) : Json :=
-  let ratsJ (o : Option (List Rat)) : Json := match o with
-    | none => .null | some l => .arr (l.map fun r => Json.str (ratStr r)).toArray
+  let ratsJ (o : Option (List Flt)) : Json := match o with
+    | none => .null | some l => .arr (l.map fun r => Json.str (fltStr r)).toArray
   let strsJ (o : Option (List String)) : Json := match o with
     | none => .null | some l => .arr (l.map Json.str).toArray
   Json.mkObj [
